@@ -27,6 +27,7 @@ StepVerdict(p, e) ==
         ELSE "ok")
   ELSE IF e.op = "mutate" THEN (IF e.raised = 1 THEN "ok" ELSE "InPlaceEditMustRaise")
   ELSE IF e.exc # "" THEN "ok"      \* an operation may legitimately raise (e.g. width limits); nothing to compare
+  ELSE IF e.robs # e.rfresh THEN "ResultViewsFresh"      \* memoised views of every new result vs views rebuilt from fresh runs
   ELSE IF HasModel(e.op) /\ Cells(e.res) # StepCells(p.pool, e) THEN "ResultOnSharedWarmOperands"
   ELSE "ok"
 
